@@ -196,7 +196,10 @@ class _G:
                 if rng.random() < 0.2:
                     vars_[v]["scale"] = "log"
             elif r < 0.8 or not self.allow_ctx:
-                vars_[v] = {"values": [self.val() for _ in range(n)]}
+                if rng.random() < 0.35:
+                    vars_[v] = {"values": [float(x) for x in rng.sample(range(1, 40), n)]}     # integral floats (type-variant twins)
+                else:
+                    vars_[v] = {"values": [self.val() for _ in range(n)]}
             else:
                 key = self.fresh_key("seq")
                 self.ctx0[key] = [self.val() for _ in range(n)]
@@ -207,6 +210,8 @@ class _G:
         targets = pnames[:]
         rng.shuffle(targets)
         targets = targets[: max(1, min(len(targets), nvars))] if targets else []
+        if rng.random() < 0.12:
+            targets = []          # a sweep with variables only (no parameter expressions) is legal
         for i, p in enumerate(targets):
             if len(vnames) >= 2 and rng.random() < 0.4:
                 e = rng.choice(EXPRS_2).format(a=vnames[0], b=vnames[1])
@@ -432,8 +437,9 @@ def recompute_truth(sc: dict) -> list[dict] | None:
 
 
 # ---------------------------------------------------------------- failure mutations
-FAIL_KINDS_CONFIG = ["unresolvable", "type_gate", "undeclared_op", "undeclared_ctx", "unknown_param", "probe_no_key"]
-FAIL_KINDS_FAULT = ["leaf_exception", "exec_pre_exception", "exec_post_exception", "abort", "kbint"]
+FAIL_KINDS_CONFIG = ["unresolvable", "unresolvable_two_keys", "type_gate", "undeclared_op", "undeclared_ctx", "unknown_param", "probe_no_key"]
+FAIL_KINDS_FAULT = ["leaf_exception", "exec_pre_exception", "exec_post_exception", "abort", "kbint",
+                    "leaf_bare_keyerror", "leaf_keyerror_subclass", "exec_nonstr_args", "transport_fault"]
 
 
 def applicable_failures(sc: dict) -> list[tuple[str, int]]:
@@ -445,7 +451,7 @@ def applicable_failures(sc: dict) -> list[tuple[str, int]]:
         t = truth[k]
         node = sc["nodes"][k]
         for kind in FAIL_KINDS_FAULT:
-            if kind == "leaf_exception" and (t["generated"] and t["kind"] == "ctx"):
+            if kind.startswith("leaf_") and (t["generated"] and t["kind"] == "ctx"):
                 continue  # repo-generated context processors have no harness leaf
             out.append((kind, k))
         # unresolvable: a node-placed parameter without default whose key is not live
@@ -461,6 +467,9 @@ def applicable_failures(sc: dict) -> list[tuple[str, int]]:
         if dt == "float":
             out.append(("type_gate", k))
             out.append(("undeclared_op", k))
+            live = set(truth[k]["live_before"]) if k < n else (set(truth[-1]["live_before"]) | set(truth[-1]["creates"])) - set(truth[-1]["removes"])
+            if "Gain" not in live and "gain" not in live:
+                out.append(("unresolvable_two_keys", k))
         if k > 0 or sc.get("init_data") is not None:
             out.append(("undeclared_ctx", k))
     return out
@@ -478,32 +487,43 @@ def apply_failure(sc: dict, kind: str, k: int) -> dict:
     s["faults"] = []
     if kind in FAIL_KINDS_FAULT:
         site = {"leaf_exception": "leaf", "exec_pre_exception": "executor_pre", "exec_post_exception": "executor_post",
-                "abort": "leaf", "kbint": "executor_pre"}[kind]
-        fk = {"leaf_exception": "exception", "exec_pre_exception": "exception", "exec_post_exception": "exception",
-              "abort": "abort", "kbint": "kbint"}[kind]
+                "abort": "leaf", "kbint": "executor_pre", "leaf_bare_keyerror": "leaf", "leaf_keyerror_subclass": "leaf",
+                "exec_nonstr_args": "executor_pre", "transport_fault": "transport_publish"}[kind]
+        fk = {"abort": "abort", "kbint": "kbint"}.get(kind, "exception")
+        variant = {"leaf_bare_keyerror": "bare_keyerror", "leaf_keyerror_subclass": "keyerror_subclass",
+                   "exec_nonstr_args": "nonstr_args"}.get(kind, "simfault")
         t = sc["truth"][k]
         if kind == "abort" and t["generated"] and t["kind"] == "ctx":
             site = "executor_pre"
-        s["faults"] = [{"site": site, "kind": fk, "node": k}]
-        s["fail"]["expect_exc"] = {"exception": "SimFault", "abort": "SimAbort", "kbint": "KeyboardInterrupt"}[fk]
+        s["faults"] = [{"site": site, "kind": fk, "node": k, "exc": variant}]
+        s["fail"]["expect_exc"] = {"exception": {"simfault": "SimFault", "bare_keyerror": "KeyError", "keyerror_subclass": "SimKeyError",
+                                                 "nonstr_args": "ValueError"}[variant], "abort": "SimAbort", "kbint": "KeyboardInterrupt"}[fk]
+        s["fail"]["after_node"] = kind == "transport_fault"
         s["fail"]["expect_sers"] = k + 1
         s["fail"]["injected"] = True
         s["fail"]["base_exception"] = fk != "exception"
     elif kind == "unresolvable":
         t = sc["truth"][k]
+        removed = []
         for p, ch in t["channels"].items():
             if ch == "node" and _default_of(t, p) is None and p not in t["live_before"]:
-                del s["nodes"][k]["parameters"][p]
-                if not s["nodes"][k]["parameters"]:
-                    del s["nodes"][k]["parameters"]
-                s["fail"]["param"] = p
-                break
+                del s["nodes"][k]["parameters"][p]        # every such parameter: several keys may be missing at once
+                removed.append(p)
+        if not s["nodes"][k].get("parameters"):
+            s["nodes"][k].pop("parameters", None)
+        s["fail"]["param"] = removed[0] if removed else None
+        s["fail"]["params"] = removed
         s["fail"]["expect_exc"] = "KeyError"
         s["fail"]["expect_sers"] = k + 1
     elif kind == "type_gate":
         s["nodes"].insert(k, {"processor": "SvTextLen"})
         s["fail"]["expect_exc"] = "TypeError"
         s["fail"]["expect_sers"] = k + 1
+    elif kind == "unresolvable_two_keys":
+        s["nodes"].insert(k, {"processor": "SvCaseOp"})       # needs Gain and gain, neither is available: two missing keys
+        s["fail"]["expect_exc"] = "KeyError"
+        s["fail"]["expect_sers"] = k + 1
+        s["fail"]["params"] = ["Gain", "gain"]
     elif kind == "undeclared_op":
         s["nodes"].insert(k, {"processor": "SvBadWriter"})
         s["fail"]["expect_exc"] = "KeyError"
